@@ -849,3 +849,44 @@ def cycles_project(plain=False):
     last function / the middle one) are members that the normal assembly order does not meet first."""
     crate = {"name": "cyc", "edition": "2024_07", "deps": [], "files": {"lib.cairo": CYCLES_PLAIN_SRC if plain else CYCLES_SRC}}
     return {"name": "cycles_plain" if plain else "cycles", "crates": [crate], "main": ["cyc"]}
+
+
+AMBIG_SRC = """mod t {
+    pub trait Show<T> {
+        fn show(self: T) -> felt252;
+    }
+}
+mod s {
+    #[derive(Drop)]
+    pub struct S {}
+}
+mod a {
+    pub impl I1 of super::t::Show<super::s::S> {
+        fn show(self: super::s::S) -> felt252 {
+            1
+        }
+    }
+}
+mod b {
+    pub impl I2 of super::t::Show<super::s::S> {
+        fn show(self: super::s::S) -> felt252 {
+            2
+        }
+    }
+}
+mod c {
+    use super::a::I1;
+    use super::b::I2;
+    use super::t::Show;
+    fn f() -> felt252 {
+        super::s::S {}.show()
+    }
+}
+"""
+
+
+def ambig_project():
+    """C12: two non-global impls of one trait brought in by `use`; the ambiguity diagnostic lists them (known finding: in
+    intern-id order, which an earlier query on module `b` changes)."""
+    crate = {"name": "amb", "edition": "2024_07", "deps": [], "files": {"lib.cairo": AMBIG_SRC}}
+    return {"name": "ambig_impls", "crates": [crate], "main": ["amb"]}
